@@ -20,12 +20,18 @@
    of u^a' in (R^T u)^a, so that  sum_{a'} D(R)[a,a'] (integral about the rotated centres with index a') = (integral
    of the original system with index a).  [orthogonal R] is R R^T = R^T R = 1: nothing is assumed about det R.
 
-   STILL ONLY TESTED for general rotations (harness/c12.py, rational rotations from integer quaternions, 1e-9): kinetic,
+   Kinetic energy: Laplacian, y.grad and |y|^2 commute with every orthogonal substitution, [kin_prim] is the
+   corresponding operator acting on the right index of the overlap, hence the primitive kinetic-energy specification and
+   every entry of [kinetic_block] (= KineticEnergyIntegral.construct_array_contraction) obey the same law.
+
+   STILL ONLY TESTED for general rotations (harness/c12.py, rational rotations from integer quaternions, 1e-9):
    momentum, angular momentum, point-charge and electron-repulsion integrals, spherical / mixed shells, evaluations,
-   densities; the multipole moment above the primitive level.  Full statement for those: Props/C12.v header. *)
+   densities; the multipole moment above the primitive level; whole-basis assembly.  Full statement for those:
+   Props/C12.v header. *)
 From Coq Require Import List Arith ZArith QArith Qcanon Field_theory.
 From GB Require Import Base.Field Base.FNum Base.Tables Gauss.Moment1D Gauss.Poly3 Model.Shell Model.MomentInt
-  Model.Overlap Proofs.CoreSumP Proofs.CoreBlockP Proofs.RigidP Proofs.RotationP Proofs.RotationBlockP.
+  Model.Overlap Model.DiffOp Proofs.CoreSumP Proofs.CoreBlockP Proofs.CoreDiffP Proofs.RigidP Proofs.RotationP
+  Proofs.RotationBlockP.
 Import ListNotations.
 
 (* ==================================================================================================== *)
@@ -84,6 +90,21 @@ Theorem C12_rotation_E3_invariant :
 Proof. exact (@E3_subst_orth). Qed.
 Print Assumptions C12_rotation_E3_invariant.
 
+(* the kinetic operator -h (Lap - 4 beta y.grad - 6 beta + 4 beta^2 |y|^2) commutes with every orthogonal substitution *)
+Theorem C12_rotation_kinetic_operator_invariant :
+  forall (F : Type) (K : Fops F), is_field K ->
+  forall (R : mat) (h beta : F) (f : poly3),
+  orth_rows K R -> orth_rows K (transpose R) ->
+  peq K (kinop K h beta (subst K R f)) (subst K R (kinop K h beta f)).
+Proof. exact (@kinop_subst). Qed.
+Print Assumptions C12_rotation_kinetic_operator_invariant.
+
+Theorem C12_rotation_laplacian_invariant :
+  forall (F : Type) (K : Fops F), is_field K ->
+  forall (R : mat) (f : poly3), orth_rows K R -> peq K (lap K (subst K R f)) (subst K R (lap K f)).
+Proof. exact (@lap_subst). Qed.
+Print Assumptions C12_rotation_laplacian_invariant.
+
 (* ==================================================================================================== *)
 (* 2. the primitive specifications of the block theorems are E3 of a product polynomial *)
 
@@ -103,6 +124,15 @@ Theorem C12_rotation_mom_prim_is_E3 :
     (E3 K (fdiv K (f1 K) (twop K alpha beta)) (triple_poly K C o sa sb ca cb alpha beta)).
 Proof. exact (@mom_prim_is_E3). Qed.
 Print Assumptions C12_rotation_mom_prim_is_E3.
+
+(* kin_prim (CoreDiffP) is the kinetic operator acting on the right index of ovl_prim *)
+Theorem C12_rotation_kin_prim_is_operator :
+  forall (F : Type) (K : Fops F), is_field K ->
+  forall (sa sb : shell F) (ca cb : comp) (alpha beta : F),
+  kin_prim K sa sb ca cb alpha beta =
+  kinT K (fdiv K (f1 K) (fadd K (f1 K) (f1 K))) beta (fun b : mon => ovl_prim K sa sb ca b alpha beta) cb.
+Proof. exact (@kin_prim_is_kinT). Qed.
+Print Assumptions C12_rotation_kin_prim_is_operator.
 
 (* the s-s prefactor sees the centres only through |A - B|^2 *)
 Theorem C12_rotation_prefactor_invariant :
@@ -150,6 +180,19 @@ Theorem C12_rotation_moment_primitive :
   = mom_prim K (vget C 0) (vget C 1) (vget C 2) o sa sb ca cb alpha beta.
 Proof. exact (@moment_prim_rotation_covariant). Qed.
 Print Assumptions C12_rotation_moment_primitive.
+
+(* kinetic energy of two primitives *)
+Theorem C12_rotation_kinetic_primitive :
+  forall (F : Type) (K : Fops F), is_field K ->
+  (forall x y : F, fexp K (fadd K x y) = fmul K (fexp K x) (fexp K y)) ->
+  forall (R : mat3) (sa sb : shell F) (ca cb : comp) (alpha beta : F),
+  orthogonal K R -> psum K alpha beta <> f0 K ->
+  Jsum K (fun a' : mon => Jsum K (fun b' : mon =>
+       kin_prim K (rot_shell K R sa) (rot_shell K R sb) a' b' alpha beta)
+     (rot_expand K R cb)) (rot_expand K R ca)
+  = kin_prim K sa sb ca cb alpha beta.
+Proof. exact (@kinetic_prim_rotation_covariant). Qed.
+Print Assumptions C12_rotation_kinetic_primitive.
 
 (* the collected coefficients form a representation matrix in the sense of RigidP.mono_rep *)
 Theorem C12_rotation_rep_mat_represents :
@@ -212,6 +255,36 @@ Theorem C12_rotation_stated_law_implies_proved :
 Proof. exact (@rotation_law_overlap_implies_wf). Qed.
 Print Assumptions C12_rotation_stated_law_implies_proved.
 
+(* KineticEnergyIntegral.construct_array_contraction (list-level model): the same sentence ([block_law]: the equation
+   of C12_rotation_overlap_block with kinetic_block in place of overlap_block) *)
+Theorem C12_rotation_kinetic_block :
+  forall (F : Type) (K : Fops F), is_field K ->
+  (forall x : F, fapx K x = x) ->
+  (forall x y : F, fexp K (fadd K x y) = fmul K (fexp K x) (fexp K y)) ->
+  (forall c : comp, dfnorm K c <> f0 K) ->
+  fadd K (f1 K) (f1 K) <> f0 K ->
+  forall R : mat3, orthogonal K R ->
+  forall la lb : nat, exists Ma Mb : comp -> comp -> F,
+    mono_rep K R la Ma /\ mono_rep K R lb Mb /\
+    forall sa sb : shell F,
+    s_l sa = la -> s_l sb = lb -> s_comps sa = [] -> s_comps sb = [] ->
+    wf_coeffs sa -> wf_coeffs sb ->
+    (forall a b : F, In a (s_exps sa) -> In b (s_exps sb) -> fadd K a b <> f0 K) ->
+    forall ma mb ja jb : nat,
+    (ma < nseg sa)%nat -> (mb < nseg sb)%nat ->
+    (ja < length (default_comps la))%nat -> (jb < length (default_comps lb))%nat ->
+    let cmp := fun l i : nat => nth i (default_comps l) (0, 0, 0)%nat in
+    fmul K (fmul K (dfnorm K (cmp la ja)) (dfnorm K (cmp lb jb)))
+      (nth jb (nth mb (nth ja (nth ma (kinetic_block K sa sb) []) []) []) (f0 K))
+    = fsum K (map (fun ia : nat => fsum K (map (fun ib : nat =>
+        fmul K (fmul K (fmul K (fmul K (Ma (cmp la ia) (cmp la ja)) (Mb (cmp lb ib) (cmp lb jb)))
+                               (dfnorm K (cmp la ia))) (dfnorm K (cmp lb ib)))
+          (nth ib (nth mb (nth ia (nth ma (kinetic_block K (rot_shell K R sa) (rot_shell K R sb)) []) []) [])
+               (f0 K)))
+        (seq 0 (length (default_comps lb))))) (seq 0 (length (default_comps la)))).
+Proof. exact (@kinetic_block_rotation_law_holds). Qed.
+Print Assumptions C12_rotation_kinetic_block.
+
 (* ==================================================================================================== *)
 (* 5. the hypotheses are satisfiable (3-4-5 rotation about z and the improper (1/3)[[1,2,2],[2,1,-2],[2,-2,1]]) *)
 Theorem C12_rotation_hypotheses_satisfiable :
@@ -236,7 +309,11 @@ Theorem C12_rotation_examples_computed :
   forallb (fun ca => forallb (fun cb => ovl_cov_check R345 ca cb) pd_comps) pd_comps = true
   /\ forallb (fun ca => forallb (fun cb => ovl_cov_check Rimp ca cb)
        [(0, 1, 0)%nat; (1, 0, 1)%nat; (0, 0, 2)%nat]) pd_comps = true
-  /\ forallb (fun R => forallb (fun ma => forallb (fun ja => forallb (fun jb =>
-       block_law_check R exP exD ma 0 ja jb) (seq 0 6)) (seq 0 3)) (seq 0 2)) [R345; Rimp] = true.
-Proof. exact (conj overlap_rotation_345_computed (conj overlap_rotation_improper_computed block_law_computed)). Qed.
+  /\ forallb (fun R => forallb (fun ca => forallb (fun cb => kin_cov_check R ca cb)
+       [(0, 1, 0)%nat; (1, 0, 1)%nat; (0, 0, 2)%nat]) [(1, 0, 0)%nat; (1, 1, 0)%nat]) [R345; Rimp] = true
+  /\ block_law_all (overlap_block exKQ) = true /\ block_law_all (kinetic_block exKQ) = true.
+Proof.
+  exact (conj overlap_rotation_345_computed (conj overlap_rotation_improper_computed
+          (conj kinetic_rotation_computed (conj block_law_computed kinetic_block_law_computed)))).
+Qed.
 Print Assumptions C12_rotation_examples_computed.
